@@ -559,7 +559,7 @@ int main(int argc, char **argv) {
     if (v_replay_token) {
         if (esx_token_is_for(v_replay_token, model.name)) rc |= esx_replay(&model, v_replay_token);
     } else {
-        model.max_depth = v_thorough() ? 11 : 9;
+        model.max_depth = v_thorough() ? 10 : 9; /* depth 11 is 3.3e7 states (4.5e7 in the black-box build): beyond the state cap */
         model.max_states = 20000000ull;
         double t0 = v_now();
         esx_run(&model);
